@@ -19,12 +19,22 @@ def handleC08 : Handler := fun st toks =>
       let i := dim.toNat!
       let k := k.toNat!
       if rest'.length < 2 * k then some "ERR parse" else
-      let f := match meth with
-        | "cdf" => cdfOf st m
-        | "icdf" => qOf st m
-        | _ => pdfOf st m
-      let vals := (List.range k).map fun j =>
-        f i (some (fOfTok (rest'.getD (2*j+1) "0"))) (fOfTok (rest'.getD (2*j) "0"))
+      let xs := (List.range k).map fun j => fOfTok (rest'.getD (2*j) "0")
+      let gs := (List.range k).map fun j => fOfTok (rest'.getD (2*j+1) "0")
+      let vals := match m[i]? with
+        | some { fam := .rat spec, .. } =>
+          -- the proved model: `condEvalVec` of Model/Cond.lean (theorems `ratCondVec_*` of C08)
+          let mth := match meth with
+            | "cdf" => ratCdf
+            | "icdf" => ratIcdf
+            | _ => ratPdf
+          (ratCondVec mth spec xs gs).map (·.getD nan)
+        | _ =>
+          let f := match meth with
+            | "cdf" => cdfOf st m
+            | "icdf" => qOf st m
+            | _ => pdfOf st m
+          List.zipWith (fun x g => f i (some g) x) xs gs
       if vals.any Float.isNaN then some "ERR nan-or-missingTable" else some ("OK " ++ floatsOut vals)
     | _ => some "ERR parse"
   | "bind" :: n :: rest =>
